@@ -10,13 +10,13 @@ D=/tmp/vps-$name
 case $cmd in
   new)
     mkdir -p $D
-    rsync -a --delete --exclude target --exclude .git /repo/ $D/repo/
-    rsync -a --delete --exclude target /verif/harness/ $D/harness/
+    rsync -rlpc --delete --exclude target --exclude .git /repo/ $D/repo/
+    rsync -rlpc --delete --exclude target /verif/harness/ $D/harness/
     sed -i "s#\"/repo#\"$D/repo#" $D/harness/Cargo.toml
     (cd $D/repo && git init -q 2>/dev/null && git add -A >/dev/null 2>&1 && git -c user.email=x@x -c user.name=x commit -qm base >/dev/null 2>&1 || true)
     echo $D ;;
   sync)
-    rsync -a --exclude target --exclude Cargo.toml /verif/harness/ $D/harness/ ;;
+    rsync -rlpc --exclude target --exclude Cargo.toml /verif/harness/ $D/harness/ ;;
   check)
     ID=$1; TIER=${2:-quick}; shift; [ $# -gt 0 ] && shift
     case "$ID" in
